@@ -35,6 +35,16 @@ list (longer / shorter sizes); an absent one added; a present one deleted
 PdiffIndex additionally gets SHA*-Current given as a list of >= 2 records whose
 sizes differ in length, and parsed Indexes whose History / Patches / Download
 fields carry their only record on the field line.
+
+Text layouts (every class): a parsed field is written in one of the three layouts deb822 allows -
+'single' (the only record on the field line), 'multi' (every record on a continuation line) and 'mixed'
+(the FIRST record on the field line, the further 1..3 records on continuation lines:
+``SHA1-History: a 1 d1\n b 2 d2\n c 3 d3``).  The mixed layout is driven (a) for every structured field of
+every configuration x 2, 3, 4 records (enumerated, case['wl'] = ['mixed-enum', field, n]), (b) in paragraphs
+whose fields mix the three layouts (case['wl'] = ['mixed-par']), (c) with probability MIXED_P for any
+>= 2-record field of every other parsed case, histories included.  Judgement is the ordinary one: all
+records exposed in order under the documented names, dump() returns, the dumped text re-parses to the same
+records (whatever layout the dump chooses).
 """
 import copy
 import io
@@ -59,7 +69,16 @@ RULE = ('One case = one paragraph of one class (Dsc, Changes, BuildInfo, PdiffIn
         'list returned by obj[field] edited in place (append / insert / pop of a record, a record\'s size or other sub-field '
         'overwritten; on a field held as one mapping only the overwrite) - every dump of a history is judged (dump returns, '
         'width rule of the current behaviour and records, re-parse equals the current records); configurations rotate '
-        'Release(apt) 3 : Release(dak) 3 : PdiffIndex 4 : Dsc 1 : Changes 1 : BuildInfo 1.  '
+        'Release(apt) 3 : Release(dak) 3 : PdiffIndex 4 : Dsc 1 : Changes 1 : BuildInfo 1; '
+        '(c) MIXED TEXT LAYOUT: parsed text in which a field with 2..4 (rarely up to 12) records carries its FIRST record on '
+        'the field line and the further records on continuation lines ("SHA1-History: a 1 d1\\n b 2 d2\\n c 3 d3") - '
+        'enumerated for every structured field of every configuration x exactly 2, 3 and 4 records (alone in the paragraph, '
+        'or next to a random subset of the other structured fields), driven in paragraphs of 2..14 structured fields that '
+        'mix the three layouts across their fields (only record on the field line / all records on continuation lines, '
+        'one or several / mixed; also all fields mixed), and chosen with probability 1/4 for every >= 2-record field of any '
+        'other parsed case, so that it also occurs under every enumerated presence subset, in every input form (str, bytes, '
+        'line lists, file objects, PGP-armoured) and as the starting point of histories (in-place edits of the list parsed '
+        'from such a field included).  '
         'A single-dump case is non-trivial when at least one structured field of the class is absent and at least one present '
         'field has >= 2 records; a history is non-trivial when it has >= 2 judged dumps and that condition held at one of them.')
 ASSUMPTIONS = [
@@ -69,6 +88,15 @@ ASSUMPTIONS = [
     'size column check assumes one separating space between the first column and the (padded) size column, as apt-ftparchive/dak write it; '
     'it is applied to multi-line (one record per continuation line) output only, not to a record dumped on the field line',
     'generated text separates tokens with runs of plain spaces only and continuation lines start with one space',
+    'mixed text layout (first record on the field line after "Name:" and zero, one or two spaces, further records on '
+    'continuation lines): deb822 allows it and the statement says "parsing exposes each line as a record", so ALL records - the one '
+    'on the field line first - are demanded in order under the documented names.  Confirmed on the unchanged tree before judging: '
+    'every class exposes such a field as a list of all its records in text order, dump() writes that list with every record on a '
+    'continuation line (Release / PdiffIndex padded as usual) and the dump re-parses to the same records; no disagreement was seen.  '
+    'Nothing is demanded about the layout dump() chooses for such a field: a dump that keeps the first record on the field line is '
+    'accepted (the size-column check skips a field whose field line carries data), only the re-parsed records count',
+    'histories on a field parsed from the mixed layout treat the value returned by obj[field] as THE stored list, exactly as for a '
+    'field parsed from continuation lines only (that is what the unchanged tree exposes; a 2..4-record field cannot be one mapping)',
     'sub-field names are checked by item access (rec[name]) and record length, not by key order or key spelling case',
     'histories: the value returned by obj[field] for a field parsed from multi-line text or assigned as a list is taken to be THE stored '
     'list (comment in _multivalued.validate_input: "we allow mutable lists"), so an in-place edit must show in the next dump; a history never '
@@ -108,51 +136,96 @@ MIXED_PAR = {'quick': 2000, 'thorough': 60000}  # paragraphs mixing the three la
 
 # ~50% of what the unchanged (repaired) tree measures: quick = minimum over VERIF_SEED 0..3, thorough = seed 0.
 # has-absent-field is counted per judged dump.  The hist:* / pdiff:* floors make a run that never drives the
-# history / PdiffIndex-form classes INCONCLUSIVE instead of held.
-FLOORS = {'quick': {'nontrivial': 10000,
-                    'monitors': {'M': 12700, 'M.parse': 6600, 'M.dump': 18000, 'M.reparse': 18000, 'M.align': 133000,
-                                 'M.hist': 8300},
-                    'counters': {'class:Dsc': 1500, 'class:Changes': 1550, 'class:BuildInfo': 1500,
-                                 'class:PdiffIndex': 4000, 'class:Release': 4000, 'behavior:dak': 1950,
-                                 'behavior:apt-ftparchive': 1950, 'mode:text': 6600, 'mode:build': 6100,
-                                 'form:single': 3100, 'form:multi': 21000, 'has-absent-field': 15000,
-                                 'kind:single-dump': 9700, 'kind:history': 3000, 'hist:redump': 5300,
-                                 'hist:redump-unchanged': 300,
-                                 'hist:dump-after:behavior': 1000, 'hist:dump-after:reassign': 1240,
-                                 'hist:dump-after:add-absent': 800, 'hist:dump-after:delete': 840,
-                                 'hist:dump-after:append': 1250, 'hist:dump-after:insert': 430,
-                                 'hist:dump-after:pop': 1240, 'hist:dump-after:set-size': 1270,
-                                 'hist:dump-after:set-token': 420,
-                                 'hist:dump-after-switch-to:apt-ftparchive': 490, 'hist:dump-after-switch-to:dak': 490,
-                                 'hist:dump-after-in-place-edit:built': 1700, 'hist:dump-after-in-place-edit:parsed': 2050,
-                                 'hist:redump-width-changed:PdiffIndex': 1000, 'hist:redump-width-changed:Release': 970,
-                                 'hist:redump-width-grew': 1250, 'hist:redump-width-shrank': 1120,
-                                 'pdiff:current-list-mixed-sizes:built': 1480, 'pdiff:current-list-mixed-sizes:parsed': 2000,
-                                 'pdiff:parsed-single-line-3col': 1840}},
-          'thorough': {'nontrivial': 330000,
-                       'monitors': {'M': 450000, 'M.parse': 235000, 'M.dump': 630000, 'M.reparse': 630000,
-                                    'M.align': 4600000, 'M.hist': 280000},
-                       'counters': {'class:Dsc': 60000, 'class:Changes': 60000, 'class:BuildInfo': 60000,
-                                    'class:PdiffIndex': 120000, 'class:Release': 150000, 'behavior:dak': 75000,
-                                    'behavior:apt-ftparchive': 75000, 'mode:text': 235000, 'mode:build': 215000,
-                                    'form:single': 108000, 'form:multi': 740000, 'has-absent-field': 510000,
-                                    'kind:single-dump': 350000, 'kind:history': 100000, 'hist:redump': 180000,
-                                    'hist:redump-unchanged': 10000,
-                                    'hist:dump-after:behavior': 33000, 'hist:dump-after:reassign': 42000,
-                                    'hist:dump-after:add-absent': 28000, 'hist:dump-after:delete': 29000,
-                                    'hist:dump-after:append': 42000, 'hist:dump-after:insert': 14500,
-                                    'hist:dump-after:pop': 41000, 'hist:dump-after:set-size': 42000,
-                                    'hist:dump-after:set-token': 14500,
-                                    'hist:dump-after-switch-to:apt-ftparchive': 16500,
-                                    'hist:dump-after-switch-to:dak': 16500,
+# history / PdiffIndex-form classes INCONCLUSIVE instead of held; the form:mixed / mixed:* / mixed-enum:* / mixed-par:*
+# / M.mixed* floors do the same for the mixed text layout (first record on the field line + continuation lines).
+FLOORS = {'quick': {'nontrivial': 11000,
+                    'monitors': {'M': 14000, 'M.parse': 8100, 'M.dump': 19000, 'M.reparse': 19000, 'M.align': 140000,
+                                 'M.hist': 8300, 'M.mixed': 7500, 'M.mixed.dump': 5800},
+                    'counters': {'class:Dsc': 1700, 'class:Changes': 1700, 'class:BuildInfo': 1700,
+                                 'class:PdiffIndex': 4400, 'class:Release': 4400, 'behavior:dak': 2200,
+                                 'behavior:apt-ftparchive': 2200, 'mode:text': 8100, 'mode:build': 6100,
+                                 'form:single': 3800, 'form:multi': 18000, 'has-absent-field': 16000,
+                                 'kind:single-dump': 11000, 'kind:history': 3000, 'hist:redump': 5300,
+                                 'hist:redump-unchanged': 290, 'hist:dump-after:behavior': 970,
+                                 'hist:dump-after:reassign': 1200, 'hist:dump-after:add-absent': 810,
+                                 'hist:dump-after:delete': 870, 'hist:dump-after:append': 1200,
+                                 'hist:dump-after:insert': 420, 'hist:dump-after:pop': 1200,
+                                 'hist:dump-after:set-size': 1200, 'hist:dump-after:set-token': 440,
+                                 'hist:dump-after-switch-to:apt-ftparchive': 470, 'hist:dump-after-switch-to:dak': 490,
+                                 'hist:dump-after-in-place-edit:built': 1700,
+                                 'hist:dump-after-in-place-edit:parsed': 2100,
+                                 'hist:redump-width-changed:PdiffIndex': 980, 'hist:redump-width-changed:Release': 980,
+                                 'hist:redump-width-grew': 1200, 'hist:redump-width-shrank': 1100,
+                                 'pdiff:current-list-mixed-sizes:built': 1400,
+                                 'pdiff:current-list-mixed-sizes:parsed': 2100, 'pdiff:parsed-single-line-3col': 1900,
+                                 'form:mixed': 7500, 'mixed:case': 4500, 'mixed:records:2': 3500,
+                                 'mixed:records:3': 1800, 'mixed:records:4': 1800, 'mixed:columns:2': 590,
+                                 'mixed:columns:3': 6700, 'mixed:columns:5': 160, 'mixed:kind:history': 840,
+                                 'mixed:kind:single-dump': 3700, 'mixed:is-last-field-of-paragraph': 1300,
+                                 'mixed:followed-by-another-field': 3200, 'mixed:paragraph-layouts:mixed': 820,
+                                 'mixed:paragraph-layouts:mixed+multi': 1300,
+                                 'mixed:paragraph-layouts:mixed+single': 310,
+                                 'mixed:paragraph-layouts:mixed+multi+single': 610,
+                                 'mixed:paragraph-with-other-layouts': 3700,
+                                 'mixed:paragraph-with-2+-mixed-fields': 1700, 'mixed-enum:case': 510,
+                                 'mixed-par:case': 1000, 'mixed-enum:records:2': 170, 'mixed-enum:records:3': 170,
+                                 'mixed-enum:records:4': 170, 'hist:dump-with-mixed-layout-field': 2100,
+                                 'hist:dump-after-in-place-edit-on-mixed-layout-field': 460,
+                                 'mixed:config:BuildInfo': 490, 'mixed:config:Changes': 480, 'mixed:config:Dsc': 490,
+                                 'mixed:config:PdiffIndex': 1800, 'mixed:config:Release-apt-ftparchive': 590,
+                                 'mixed:config:Release-dak': 570, 'mixed:input:bfile': 600, 'mixed:input:bytes': 620,
+                                 'mixed:input:file': 610, 'mixed:input:lines': 620, 'mixed:input:lines_nonl': 610,
+                                 'mixed:input:signed': 170, 'mixed:input:str': 1200}},
+          'thorough': {'nontrivial': 360000,
+                       'monitors': {'M': 490000, 'M.parse': 270000, 'M.dump': 670000, 'M.reparse': 670000,
+                                    'M.align': 4800000, 'M.hist': 270000, 'M.mixed': 230000, 'M.mixed.dump': 180000},
+                       'counters': {'class:Dsc': 65000, 'class:Changes': 66000, 'class:BuildInfo': 65000,
+                                    'class:PdiffIndex': 120000, 'class:Release': 160000, 'behavior:dak': 81000,
+                                    'behavior:apt-ftparchive': 81000, 'mode:text': 270000, 'mode:build': 210000,
+                                    'form:single': 120000, 'form:multi': 610000, 'has-absent-field': 540000,
+                                    'kind:single-dump': 390000, 'kind:history': 99000, 'hist:redump': 170000,
+                                    'hist:redump-unchanged': 10000, 'hist:dump-after:behavior': 33000,
+                                    'hist:dump-after:reassign': 42000, 'hist:dump-after:add-absent': 28000,
+                                    'hist:dump-after:delete': 29000, 'hist:dump-after:append': 42000,
+                                    'hist:dump-after:insert': 14000, 'hist:dump-after:pop': 41000,
+                                    'hist:dump-after:set-size': 42000, 'hist:dump-after:set-token': 14000,
+                                    'hist:dump-after-switch-to:apt-ftparchive': 16000,
+                                    'hist:dump-after-switch-to:dak': 16000,
                                     'hist:dump-after-in-place-edit:built': 58000,
-                                    'hist:dump-after-in-place-edit:parsed': 69000,
+                                    'hist:dump-after-in-place-edit:parsed': 70000,
                                     'hist:redump-width-changed:PdiffIndex': 34000,
-                                    'hist:redump-width-changed:Release': 33000,
-                                    'hist:redump-width-grew': 42000, 'hist:redump-width-shrank': 38000,
-                                    'pdiff:current-list-mixed-sizes:built': 50000,
-                                    'pdiff:current-list-mixed-sizes:parsed': 68000,
-                                    'pdiff:parsed-single-line-3col': 62000}}}
+                                    'hist:redump-width-changed:Release': 33000, 'hist:redump-width-grew': 42000,
+                                    'hist:redump-width-shrank': 38000, 'pdiff:current-list-mixed-sizes:built': 50000,
+                                    'pdiff:current-list-mixed-sizes:parsed': 72000,
+                                    'pdiff:parsed-single-line-3col': 65000, 'form:mixed': 230000, 'mixed:case': 140000,
+                                    'mixed:records:2': 110000, 'mixed:records:3': 57000, 'mixed:records:4': 58000,
+                                    'mixed:columns:2': 18000, 'mixed:columns:3': 210000, 'mixed:columns:5': 5700,
+                                    'mixed:kind:history': 28000, 'mixed:kind:single-dump': 110000,
+                                    'mixed:is-last-field-of-paragraph': 39000,
+                                    'mixed:followed-by-another-field': 100000, 'mixed:paragraph-layouts:mixed': 22000,
+                                    'mixed:paragraph-layouts:mixed+multi': 44000,
+                                    'mixed:paragraph-layouts:mixed+single': 9900,
+                                    'mixed:paragraph-layouts:mixed+multi+single': 21000,
+                                    'mixed:paragraph-with-other-layouts': 120000,
+                                    'mixed:paragraph-with-2+-mixed-fields': 58000, 'mixed-enum:case': 7600,
+                                    'mixed-par:case': 29000, 'mixed-enum:records:2': 2500,
+                                    'mixed-enum:records:3': 2500, 'mixed-enum:records:4': 2500,
+                                    'hist:dump-with-mixed-layout-field': 72000,
+                                    'hist:dump-after-in-place-edit-on-mixed-layout-field': 15000,
+                                    'mixed:config:BuildInfo': 16000, 'mixed:config:Changes': 16000,
+                                    'mixed:config:Dsc': 16000, 'mixed:config:PdiffIndex': 56000,
+                                    'mixed:config:Release-apt-ftparchive': 19000, 'mixed:config:Release-dak': 19000,
+                                    'mixed:input:bfile': 19000, 'mixed:input:bytes': 19000, 'mixed:input:file': 19000,
+                                    'mixed:input:lines': 19000, 'mixed:input:lines_nonl': 19000,
+                                    'mixed:input:signed': 6200, 'mixed:input:str': 39000}}}
+# MIXED-FLOORS: the enumerated mixed-layout class is deterministic - every structured field of every configuration
+# is parsed MIXED_REPS x {2, 3, 4 records} times (Release: x 2 behaviours); demand half of that per field, so a
+# run that does not drive the mixed layout for SOME field of SOME class is INCONCLUSIVE, not held.
+for _tier in ('quick', 'thorough'):
+    for _cls, _behavior in mv.CONFIGS:
+        for _f in mv.DOC[_cls]:
+            _k = 'mixed-enum:field:%s:%s' % (_cls, _f)
+            FLOORS[_tier]['counters'][_k] = FLOORS[_tier]['counters'].get(_k, 0) + (3 * MIXED_REPS[_tier]) // 2
 
 HOSTILE_ATOMS = ['#', ':', '-', '-----BEGIN', 'PGP', '=', '\\', 'Files:', '.', '..', '#x', 'a:b', '::', '-----',
                  '%', '"', "'", '@', ',', ';', '(', ')', '[', ']', '{', '}', '<', '>', '|', '&', '*', '!', '?', '$',
@@ -652,12 +725,16 @@ def cases(ctx):
                 else:
                     p = rr.choice([0.15, 0.5, 0.85])
                     sub = [x for x in others if rr.random() < p]
-                yield gen_case(rr, clsname, behavior, sub, 'text', force={f: ['mixed', n]})
+                case = gen_case(rr, clsname, behavior, sub, 'text', force={f: ['mixed', n]})
+                case['wl'] = ['mixed-enum', f, n]
+                yield case
             i += 1
     r = ctx.rng('mixed-par')
     for i in range(ctx.size(MIXED_PAR['quick'], MIXED_PAR['thorough'])):
         clsname, behavior = mv.CONFIGS[i % len(mv.CONFIGS)]
-        yield gen_mixed_paragraph(r, clsname, behavior)
+        case = gen_mixed_paragraph(r, clsname, behavior)
+        case['wl'] = ['mixed-par']
+        yield case
     # histories: one object, several dumps
     r = ctx.rng('history')
     for i in range(ctx.size(HIST['quick'], HIST['thorough'])):
@@ -886,8 +963,6 @@ def dump_and_judge(ctx, cls, clsname, obj, state, via, origin, suffix=''):
                       % (clsname, behavior, bad[2], txt,
                          '; fields parsed from first-record-on-field-line + continuation lines: %r' % mixed if mixed else ''))
         return False
-    if mixed:
-        ctx.count('mixed:dump-reparsed-equal')
     return True
 
 
@@ -986,6 +1061,13 @@ def count_mixed(ctx, case, mixed):
         ctx.count('mixed:paragraph-with-other-layouts')
     if len(mixed) >= 2:
         ctx.count('mixed:paragraph-with-2+-mixed-fields')
+    wl = case.get('wl')
+    if wl and wl[0] == 'mixed-enum':
+        ctx.count('mixed-enum:case')
+        ctx.count('mixed-enum:field:%s:%s' % (clsname, wl[1]))
+        ctx.count('mixed-enum:records:%d' % wl[2])
+    elif wl and wl[0] == 'mixed-par':
+        ctx.count('mixed-par:case')
 
 
 def run_case(ctx, case):
